@@ -489,6 +489,8 @@ Proof.
     intros E. apply step_value_parts in E. destruct E as (s1 & text & toks & ls' & Hs1 & _ & E).
     apply Hec in E; [exact E|]. apply song_with_ls_inv.
     destruct Hs1 as [->|[m ->]]; [exact H|apply inv_add_log, H].
+  - (* TDecresc *) destruct (_ <? _); [discriminate|]. intros E; injection E as <-.
+    apply inv_upd_cur; [intros t0 Ht0; apply track_inv_on_rt; [rsv_ext|exact Ht0]|exact H].
   - (* TPlay *) intros E. apply (exec_play_events_inv ec s args lineno s' Hec H E).
 Qed.
 
@@ -538,13 +540,18 @@ Proof.
   unfold read_command_cc, cc_warn. intros H I. repeat brk H;
     injection H as <- <- <- <-; try exact I; try (apply tb_add_log, I); eapply read_args_tokens_tb; eassumption.
 Qed.
-Lemma read_cc_tb ls is_c s ln ot s' ln' ls' :
-  read_cc ls is_c s ln = Ok (ot, s', ln', ls') -> TB ls -> TB ls'.
+Lemma guard_out_tb r x : guard_out r = Ok x -> r = Ok x.
+Proof. unfold guard_out. destruct r as [a| | |]; cbn [bind]; try discriminate. destruct (otok_big _); [discriminate|]. exact (fun H => H). Qed.
+Lemma read_cc_raw_tb ls is_c s ln ot s' ln' ls' :
+  read_cc_raw ls is_c s ln = Ok (ot, s', ln', ls') -> TB ls -> TB ls'.
 Proof.
-  unfold read_cc. intros H I. repeat brk H;
+  unfold read_cc_raw. intros H I. repeat brk H;
     try (injection H as ->; eapply read_command_cc_tb; eassumption);
     injection H as <- <- <- <-; try exact I; apply tb_read_error_cmd, I.
 Qed.
+Lemma read_cc_tb ls is_c s ln ot s' ln' ls' :
+  read_cc ls is_c s ln = Ok (ot, s', ln', ls') -> TB ls -> TB ls'.
+Proof. unfold read_cc. intros H. apply guard_out_tb in H. exact (read_cc_raw_tb _ _ _ _ _ _ _ _ H). Qed.
 Lemma read_rpn_command_tb ls nrpn msb lsb s ln ot s' ln' ls' :
   read_rpn_command ls nrpn msb lsb s ln = Ok (ot, s', ln', ls') -> TB ls -> TB ls'.
 Proof.
@@ -562,15 +569,19 @@ Proof.
   unfold read_def_str. intros H I. repeat brk H;
     injection H as <- <- <- <-; try exact I; apply tb_add_log, I.
 Qed.
-Lemma read_ext_command_tb ls ttype argt tag1 tag2 s ln ot s' ln' ls' :
-  read_ext_command ls ttype argt tag1 tag2 s ln = Ok (ot, s', ln', ls') -> TB ls -> TB ls'.
+Lemma read_ext_command_raw_tb ls ttype argt tag1 tag2 s ln ot s' ln' ls' :
+  read_ext_command_raw ls ttype argt tag1 tag2 s ln = Ok (ot, s', ln', ls') -> TB ls -> TB ls'.
 Proof.
-  unfold read_ext_command. intros H I. repeat brk H;
+  unfold read_ext_command_raw. intros H I. repeat brk H;
     try (injection H as ->; first [eapply read_cc_tb; eassumption | eapply read_command_cc_tb; eassumption
                                   | eapply read_rpn_command_tb; eassumption | eapply read_play_tb; eassumption
                                   | eapply read_def_str_tb; eassumption]);
     injection H as <- <- <- <-; try exact I; eapply read_args_tokens_tb; eassumption.
 Qed.
+Lemma read_ext_command_tb ls ttype argt tag1 tag2 s ln ot s' ln' ls' :
+  read_ext_command ls ttype argt tag1 tag2 s ln = Ok (ot, s', ln', ls') -> TB ls -> TB ls'.
+Proof. unfold read_ext_command. intros H. apply guard_out_tb in H. exact (read_ext_command_raw_tb _ _ _ _ _ _ _ _ _ _ _ H). Qed.
+
 
 Section LoopTB.
 Variable sublex : lexstate -> list Z -> Z -> res lex_out.
@@ -745,6 +756,8 @@ Proof.
     { destruct Hs1 as [->|[m ->]]; [exact H|apply (dims_of_dsig s _ (dsig_add_log s m) H)]. }
     apply Hec in E; [exact E|]. apply dims_song_with_ls; [|exact H1].
     apply (lex_tb _ _ _ _ _ L), tb_ls_of_song, H1.
+  - (* TDecresc *) destruct (_ <? _); [discriminate|]. intros E; injection E as <-.
+    apply (dims_of_dsig s _ (dsig_upd_cur s _) H).
   - (* TPlay *) intros E. apply (exec_play_dims ec s args lineno s' Hec H E).
 Qed.
 
